@@ -19,12 +19,28 @@ GenOf(cls, n, s, k) ==
 FieldOf(cls) == IF cls \in {"R", "R_T", "C_H", "R_cT", "R_c"} THEN "real" ELSE "complex"
 Gens(cls, n, s, t) == LET base == [k \in 1..t |-> GenOf(cls, n, s, k)] IN
    base \o <<MAdd(base[1], IF t >= 2 THEN MScale(2, base[2]) ELSE base[1]), base[1]>>         \* planted dependencies
-Configs == {[cls |-> c, n |-> n, s |-> s, t |-> t] : c \in {"R", "R_T", "C", "C_T", "C_H", "R_cT", "R_c", "C_Tc", "Cc"}, n \in 2..NMax, s \in 1..NSeeds, t \in 1..3}
+Configs == {[cls |-> c, n |-> n, s |-> s, t |-> t] : c \in {"R", "R_T", "C", "C_T", "C_H", "R_cT", "R_c", "C_Tc", "Cc", "R_T~", "C_H~"}, n \in 2..NMax, s \in 1..NSeeds, t \in 1..3}
+\* NEARLY structured generators ("R_T~", "C_H~"): S_k + 2^-e K_k with S_k symmetric (Hermitian) and K_k antisymmetric (anti-Hermitian), not all
+\* K_k zero, e = 20 or 30 (1e-6, 1e-9: far above the library's absolute threshold 1e-10).  They are NOT symmetric (Hermitian): the label is
+\* the general one, and because Sym (+) Alt is a direct sum the dimension of the span is the rank of the stacked vectors (S_k, K_k).
+IsPert(cls) == cls \in {"R_T~", "C_H~"}
+BaseCls(cls) == IF cls = "R_T~" THEN "R_T" ELSE IF cls = "C_H~" THEN "C_H" ELSE cls
+PertOf(cls, n, s, k) == LET A == Raw(n, n, s + 11, k, cls = "C_H~") IN IF cls = "R_T~" THEN MAdd(A, MScale(-1, Tr(A))) ELSE MAdd(A, MScale(-1, Dag(A)))
+Perts(cls, n, s, t) == LET base == [k \in 1..t |-> PertOf(cls, n, s, k)] IN base \o <<MAdd(base[1], IF t >= 2 THEN MScale(2, base[2]) ELSE base[1]), base[1]>>
+Stack(S, K) == [k \in 1..Len(S) |-> S[k] \o K[k]]                                        \* rows of S_k followed by rows of K_k: one vector per pair
 LabelOf(mats, field) == Label(\E k \in 1..Len(mats) : ~IsReal(mats[k]), field, \A k \in 1..Len(mats) : IsSym(mats[k]), \A k \in 1..Len(mats) : IsHerm(mats[k]))
 Init == /\ cfg \in Configs
-        /\ \E g \in {Gens(cfg.cls, cfg.n, cfg.s, cfg.t)} : \E lb \in {LabelOf(g, FieldOf(cfg.cls))} :
-             obs = [gens |-> g, field |-> FieldOf(cfg.cls), label |-> lb, dim |-> SpanDim(lb, g), ambient |-> Ambient(lb, Len(g[1]), Len(g[1][1]))]
+        /\ IF ~IsPert(cfg.cls)
+           THEN \E g \in {Gens(cfg.cls, cfg.n, cfg.s, cfg.t)} : \E lb \in {LabelOf(g, FieldOf(cfg.cls))} :
+                  obs = [gens |-> g, pert |-> <<>>, e |-> 0, field |-> FieldOf(cfg.cls), label |-> lb, dim |-> SpanDim(lb, g), ambient |-> Ambient(lb, Len(g[1]), Len(g[1][1]))]
+           ELSE \E g \in {Gens(BaseCls(cfg.cls), cfg.n, cfg.s, cfg.t)} : \E k \in {Perts(cfg.cls, cfg.n, cfg.s, cfg.t)} :
+                \E lb \in {LabelOf([i \in 1..Len(g) |-> MAdd(g[i], k[i])], "real")} :
+                  obs = [gens |-> g, pert |-> k, e |-> 20 + 10 * ModI(cfg.s, 2), field |-> "real", label |-> lb, dim |-> SpanDim(lb, Stack(g, k)), ambient |-> Ambient(lb, cfg.n, cfg.n)]
 Next == UNCHANGED <<cfg, obs>>
 Spec == Init /\ [][Next]_<<cfg, obs>>
 DimOK == obs.dim >= 0 /\ obs.dim <= cfg.t /\ obs.dim <= obs.ambient
+\* the perturbed families are what they claim: structured part, anti-structured part, the general label whenever some K_k is not zero
+PertOK == IsPert(cfg.cls) =>
+   /\ \A k \in 1..Len(obs.gens) : IF cfg.cls = "R_T~" THEN IsSym(obs.gens[k]) /\ obs.pert[k] = MScale(-1, Tr(obs.pert[k])) ELSE IsHerm(obs.gens[k]) /\ obs.pert[k] = MScale(-1, Dag(obs.pert[k]))
+   /\ ((\E k \in 1..Len(obs.pert) : \E i, j \in 1..cfg.n : obs.pert[k][i][j] # GZero) => obs.label = (IF cfg.cls = "R_T~" THEN "R" ELSE "R_c"))
 =============================================================================
